@@ -35,6 +35,13 @@ def tainted(fn):
                 if any(isinstance(o, str) and o in t for o in i.o):
                     t.add(i.ref)
                     changed = True
+            elif i.op == 'call' and (i.callee or '').startswith(('llvm.umul.with.overflow', 'llvm.uadd.with.overflow')):
+                if any(isinstance(o, str) and o in t for o in i.o):
+                    t.add(i.ref)
+                    changed = True
+            elif i.op == 'extractvalue' and isinstance(i.o[0], str) and i.o[0] in t:
+                t.add(i.ref)
+                changed = True
     return t
 
 
@@ -48,6 +55,12 @@ def backward_slice(fn, ref, seen=None):
         seen[ins.id] = ins
         for o in ins.o:
             backward_slice(fn, o, seen)
+    elif ins.op == 'extractvalue' and ins.x.get('evi') == [0]:
+        c = fn.get(ins.o[0])
+        if c is not None and c.op == 'call' and (c.callee or '').startswith(('llvm.umul.with.overflow', 'llvm.uadd.with.overflow')):
+            seen[ins.id] = ins
+            for o in c.o:
+                backward_slice(fn, o, seen)
     return seen
 
 
@@ -137,10 +150,16 @@ def check_op(fn, pv, ins):
             return 'VIOLATION', '%s can wrap below zero: nothing on any path to it bounds `%s` by `%s`' % (expr, describe(fn, b), describe(fn, a))
         return 'UNDECIDED', '%s: guard present (%s) but the no-wrap goal is not derivable' % (expr, ub[:2])
     unb = []
-    for o in (a, b):
+    fams = {o: family(fn, o) for o in (a, b)}
+    ubs = {o: upper_bound_atoms(fn, ins, fams[o]) for o in (a, b)}
+    for o, other in ((a, b), (b, a)):
         if const_int(o) is not None:
             continue
-        if not upper_bound_atoms(fn, ins, family(fn, o)):
+        if ubs[o]:
+            continue
+        # a bound on the other operand expressed in terms of this one (x <= K / o) constrains the pair
+        relational = any((fams[o] - {'#0', '#1'}) & family(fn, y) for (_, x, y) in ubs[other] if const_int(y) is None)
+        if not relational:
             unb.append(describe(fn, o))
     if unb:
         mx = 'SIZE_MAX' if bits == 64 else '2^%d-1' % bits
@@ -286,6 +305,20 @@ def check_entry(fn, rule, length_fields=(), compare=False, label=None, sub_in_co
     for sink, opnd, kind in find_sinks(fn, length_fields, compare, skip_alloc=skip_alloc):
         sl = backward_slice(fn, opnd)
         for ins in sl.values():
+            if ins.op == 'extractvalue' and ins.ref in tnt and ins.id not in done:
+                # result of a checked-arithmetic builtin: sound iff the overflow flag was tested and is false here
+                done[ins.id] = True
+                n += 1
+                c = fn.get(ins.o[0])
+                flags = [e for e in fn.users(c.ref) if e.op == 'extractvalue' and e.x.get('evi') == [1]]
+                site = ('%s:%s:%s' % (label or fn.name, ins.srcfn, 'checked-' + ('mul' if 'umul' in c.callee else 'add'))).replace(' ', '')
+                ok = any(pv.prove_at(('eq', fl.ref, '#0'), sink) for fl in flags)
+                if ok:
+                    rule.ok(site, 'overflow flag of the checked builtin is false on every path to the sink', ins.loc())
+                else:
+                    rule.violation(site, 'the result of %s reaches %s without its overflow flag having been tested: the wrapped value is used as a size'
+                                   % (c.callee.split('.')[1], kind), ins.loc(), {})
+                continue
             if ins.op not in ARITH or ins.ref not in tnt:
                 continue
             if (ins.x.get('bits') or 64) != 64 or ins.x.get('nsw'):
